@@ -189,8 +189,19 @@ def firmware_of(case):
 # schedules
 # ---------------------------------------------------------------------------------------------
 
+def soft(status):
+    """the status-only flavour of an injected fault: the completing GETSTATUS carries bStatus = status while bState is
+    dfuDNLOAD_IDLE as after a success (the schedule writes it q<status>)"""
+    return 'q{}'.format(status)
+
+
+def fault_status(f):
+    """numeric status of a fault as written in a schedule / a case's `faults` (int, '7' or 'q7')"""
+    return int(str(f).lstrip('q'))
+
+
 def sched_str(start_err, idle, ops):
-    """ops: list of (busy timeouts list, done timeout, fault)"""
+    """ops: list of (busy timeouts list, done timeout, fault); fault = status (0 = none) or soft(status)"""
     return 'S{}/I{}'.format(start_err, ','.join(map(str, idle))) + ''.join(
         '/O{}:{}:{}'.format(','.join(map(str, b)), d, f) for b, d, f in ops)
 
@@ -384,9 +395,10 @@ def oracle_c19_oversize(case, real):
     return fails
 
 
-def first_reported_error(trace):
+def first_reported_error(trace, with_state=False):
     """the first GETSTATUS reply with a status other than OK that follows a DNLOAD, attributed to that DNLOAD:
-    returns (kind, address or None, status) with kind 'erase' / 'addr' / 'data' / 'other', or None.
+    returns (kind, address or None, status) with kind 'erase' / 'addr' / 'data' / 'other', or None; with_state=True adds
+    the bState of that reply (10 = dfuERROR, 5 = dfuDNLOAD_IDLE: the status-only flavour).
     Read off the trace of the real host, so it does not depend on the order in which a host starts operations."""
     last, ptr = None, None
     for ev in trace:
@@ -405,16 +417,20 @@ def first_reported_error(trace):
             else:
                 last = ('other', None)
         elif last is not None and ev.startswith('R161.3.') and '=b' in ev:
-            status = int(ev.split('=b', 1)[1][:2] or '0', 16)
+            reply = ev.split('=b', 1)[1]
+            status = int(reply[:2] or '0', 16)
             if status != 0:
+                if with_state:
+                    return last[0], last[1], status, int(reply[8:10] or '0', 16)
                 return last[0], last[1], status
     return None
 
 
 def oracle_c19_fault(case, real):
-    """an error status was injected at operation(s) case['faults'] ({op index: status}).  Demanded whenever the
-    device actually reported an error status for an erase or a write (data) to this host: exit status != 0, no
-    'done!', and a message naming the failure.  For a failed set-address only exit != 0 and no 'done!'."""
+    """an error status was injected at operation(s) case['faults'] ({op index: status, or soft(status) for the
+    status-only flavour}).  Demanded whenever the device actually reported an error status for an erase or a write (data)
+    to this host - in bStatus, whatever bState says: exit status != 0, no 'done!', and a message naming the failure.
+    A failed set-address is part of the write step: the same is demanded of it."""
     fails = []
     rep = first_reported_error(real['trace'])
     if rep is None:
@@ -425,13 +441,13 @@ def oracle_c19_fault(case, real):
         fails.append('device reported status {} for the {} and the run ended with exit status 0'.format(status, where))
     if real['done']:
         fails.append("device reported status {} for the {} and 'done!' was printed".format(status, where))
-    if kind in ('erase', 'data') and real['exit'] != 0 and not fails:
+    if kind in ('erase', 'data', 'addr') and real['exit'] != 0 and not fails:
         # "naming the failure": the message that comes with the non-zero exit status must say what failed -
         # the step ('eras...' / 'writ...'), or the page address, or the device's status (its DFU 1.1 description).
         # A bare transport exception (USBError: Pipe error) raised by a LATER request names nothing.
         text = real['text'].lower()
         desc = dfu_module().STATUS_DESCRIPTION.get(status)
-        names = ['eras' if kind == 'erase' else 'writ']
+        names = ['eras'] if kind == 'erase' else ['writ'] if kind == 'data' else ['addr', 'writ']
         if addr is not None:
             names.append('{:08x}'.format(addr))
         if desc:
@@ -446,7 +462,7 @@ def oracle_c19_fault(case, real):
 # correspondence real host <-> Lean host model
 # ---------------------------------------------------------------------------------------------
 
-MODEL_KIND = {'ok': 'ok', 'tooLarge': 'message', 'eraseFailed': 'message', 'writeFailed': 'message',
+MODEL_KIND = {'ok': 'ok', 'tooLarge': 'message', 'eraseFailed': 'message', 'addrFailed': 'message', 'writeFailed': 'message',
               'assertion': 'assertion', 'usbError': 'usbError', 'keyError': 'exception:KeyError'}
 
 
